@@ -208,6 +208,25 @@ func (f *sdFam) Reset() M {
 				f.queue = append(f.queue, M{"a": "postproof", "s": p, "f": []interface{}{m, o, h}, "toProve": int64(0), "c": int64(0), "claim": "valid"})
 			}
 		}
+	} else if f.mode != "forms" && f.rng.Intn(6) == 0 {
+		// scripted prelude of some scenarios: twin files - the same merkle root and owner posted at height h and again at height 10h
+		// (the decimal spelling of the first start is a prefix of the second), the same provers on both, then the older twin is
+		// deleted: records of one file whose keys are textual prefixes of the other's must stay apart
+		for _, p := range f.provers {
+			f.queue = append(f.queue, M{"a": "initprovider", "s": p, "dom": f.doms[f.rng.Intn(len(f.doms))]})
+		}
+		h := f.ctx.BlockHeight()
+		m, o := f.merkles[0], f.owners[0]
+		for _, st := range []int64{h, 10 * h} {
+			if st != h {
+				f.queue = append(f.queue, M{"a": "_until", "h": st})
+			}
+			f.queue = append(f.queue, M{"a": "postfile", "s": o, "m": m, "sz": f.sizes[m], "mp": int64(len(f.provers))})
+			for _, p := range f.provers {
+				f.queue = append(f.queue, M{"a": "postproof", "s": p, "f": []interface{}{m, o, st}, "toProve": int64(0), "c": int64(0), "claim": "valid"})
+			}
+		}
+		f.queue = append(f.queue, M{"a": "deletefile", "s": o, "m": m, "st": h})
 	}
 	return f.Project()
 }
@@ -729,8 +748,18 @@ func (f *sdFam) honestDue(crossingOnly bool) M {
 }
 
 func (f *sdFam) Random(rng *rand.Rand) M {
-	if len(f.queue) > 0 {
+	for len(f.queue) > 0 {
 		st := f.queue[0]
+		if gets(st, "a") == "_until" { // blocks (the honest prover keeps proving) until the given height is reached
+			if f.ctx.BlockHeight() < geti(st, "h") {
+				if d := f.honestDue(true); d != nil {
+					return d
+				}
+				return M{"a": "block"}
+			}
+			f.queue = f.queue[1:]
+			continue
+		}
 		f.queue = f.queue[1:]
 		return st
 	}
